@@ -157,6 +157,24 @@ def A(label, cond):
     return '    __CPROVER_assert(%s, "C15/UncompressedFile/%s");\n' % (cond, label)
 
 
+def pred_call(name, obj='&u', known=('n', 's')):
+    """call of a lifted wait predicate with whatever parameters the extractor gave it (the lambda's captured locals):
+       parameters named like a harness variable get that variable, any other gets an arbitrary value of its type"""
+    import re
+    h = open(os.path.join(core.GEN, 'blf.h')).read()
+    m = re.search(r'_Bool %s\(([^)]*)\);' % re.escape(name), h)
+    if not m: raise core.Inconclusive('wait predicate %s not found in the extracted header (renamed?)' % name)
+    args = []; decls = ''
+    for i, prm in enumerate(x.strip() for x in m.group(1).split(',')):
+        if i == 0: args.append(obj); continue
+        ty, nm = prm.rsplit(' ', 1)
+        nm = nm.lstrip('*')
+        if nm in known: args.append(nm)
+        else:
+            decls += '    %s vb_arg_%s_%d;\n' % (ty.strip(), nm, i); args.append('vb_arg_%s_%d' % (nm, i))
+    return '%s(%s)' % (name, ', '.join(args)), decls
+
+
 def jobs(L, timeout):
     out = []
     pre = prelude2(L)
@@ -303,10 +321,12 @@ def jobs(L, timeout):
     b += A('accessors/good-eof-gcount-fileSize', 'UncompressedFile_good(&u) == (o.m_rdstate == IOS_goodbit) && UncompressedFile_eof(&u) == ((o.m_rdstate & IOS_eofbit) != 0) && UncompressedFile_gcount(&u) == o.m_gcount && UncompressedFile_fileSize(&u) == o.m_fileSize')
     b += '    UncompressedFile_abort(&u);\n' + A('abort/sets-abort-and-notifies-both-sides', 'u.m_abort && u.tellgChanged.notified != o.tellgChanged.notified && u.tellpChanged.notified != o.tellpChanged.notified && u.m_tellg == o.m_tellg && u.m_tellp == o.m_tellp')
     b += '    u = o;\n'
-    b += A('read/wait-predicate-is-abort-or-data-available-or-request-past-declared-end', 'UncompressedFile_read__waitpred(&u, n) == (u.m_abort || n + u.m_tellg <= u.m_tellp || n + u.m_tellg > u.m_fileSize)')
-    b += A('write/wait-predicate-is-abort-or-buffered-bytes-below-the-threshold', 'UncompressedFile_write__waitpred(&u) == (u.m_abort || (u.m_tellp - u.m_tellg) < u.m_bufferSize)')
-    b += A('writeContainer/wait-predicate-is-abort-or-buffered-bytes-below-the-threshold', '!(u.m_tellp - u.m_tellg >= 0 && u.m_tellp - u.m_tellg <= 0xffffffffll) || UncompressedFile_write__std__shared_ptr_LogContainer__waitpred(&u) == (u.m_abort || (u.m_tellp - u.m_tellg) < u.m_bufferSize)')
-    b += A('abort-releases-every-waiter', '!u.m_abort || (UncompressedFile_read__waitpred(&u, n) && UncompressedFile_write__waitpred(&u) && UncompressedFile_write__std__shared_ptr_LogContainer__waitpred(&u))')
+    pr, d1 = pred_call('UncompressedFile_read__waitpred'); pw, d2 = pred_call('UncompressedFile_write__waitpred'); pc, d3 = pred_call('UncompressedFile_write__std__shared_ptr_LogContainer__waitpred')
+    b += d1 + d2 + d3
+    b += A('read/wait-predicate-is-abort-or-data-available-or-request-past-declared-end', pr + ' == (u.m_abort || n + u.m_tellg <= u.m_tellp || n + u.m_tellg > u.m_fileSize)')
+    b += A('write/wait-predicate-is-abort-or-buffered-bytes-below-the-threshold', pw + ' == (u.m_abort || (u.m_tellp - u.m_tellg) < u.m_bufferSize)')
+    b += A('writeContainer/wait-predicate-is-abort-or-buffered-bytes-below-the-threshold', '!(u.m_tellp - u.m_tellg >= 0 && u.m_tellp - u.m_tellg <= 0xffffffffll) || ' + pc + ' == (u.m_abort || (u.m_tellp - u.m_tellg) < u.m_bufferSize)')
+    b += A('abort-releases-every-waiter', '!u.m_abort || (' + pr + ' && ' + pw + ' && ' + pc + ')')
     mk('setters_accessors_predicates', b, ['UncompressedFile::setFileSize', 'UncompressedFile::setBufferSize', 'UncompressedFile::setDefaultLogContainerSize',
                                           'UncompressedFile::tellg', 'UncompressedFile::tellp', 'UncompressedFile::good', 'UncompressedFile::eof', 'UncompressedFile::gcount',
                                           'UncompressedFile::fileSize', 'UncompressedFile::abort', 'UncompressedFile wait predicates'], 11)
